@@ -188,7 +188,7 @@ impl Property for C10 {
         "C10"
     }
     fn rule(&self) -> String {
-        "each case = one job (generated size-static or cascading program with many sibling symbols and rules, corpus program, mutated corpus program, or - one in six - a root file including 2-4 files with the same byte layout so that equal byte ranges and equal values tie across files, or - one in eight - an instruction set whose rules reach the same text from different prefix buckets of the matcher index, with lines that tie or fail every candidate, or - one in eight - a program that reads three data files through incbin / incbinstr / inchexstr, whose history consists of the same program over other file contents under the same names; failing programs included) x one \
+        "each case = one job (generated size-static or cascading program with many sibling symbols and rules, corpus program, mutated corpus program, or - one in six - a root file including 2-4 files with the same byte layout so that equal byte ranges and equal values tie across files, or - one in eight - an instruction set whose rules reach the same text from different prefix buckets of the matcher index, with lines that tie or fail every candidate, or - one in eight - two to four input files on one command line, or - one in eight - a program that reads three data files through incbin / incbinstr / inchexstr, whose history consists of the same program over other file contents under the same names; failing programs included) x one \
          command line with up to 5 output groups drawn from fixed format sets (incl. symbols, mesen-mlb, annotated, addrspan, and command lines with several invalid format parameters) run \
          4 times in one process: on the worker thread, on a fresh thread, and on both again after a random history of 1-3 other jobs; every 40th case additionally runs the real binary 3 \
          times in fresh processes (stdout, stderr, exit status, files) and compares the files with the in-process run. Oracle: the full record - success flag, printed diagnostics, every \
